@@ -18,7 +18,6 @@ state the property is about:
 import random
 import zlib
 
-import numpy as np
 
 import netgen
 import pipe_common
